@@ -131,7 +131,7 @@ def x5_print(ctx):
             recvs.setdefault(comp, set()).add((fn_key(bb.path), render(e)))
     if len(recvs) < 6:
         raise AnchorLost('DateTimeItem::print: expected day/month/year/hour/minute/second accessors, found %s' % sorted(recvs))
-    want = r'TimeZone::from_utc_datetime\(FixedOffset::east(_opt)?\(\(self\.1\.offset MulWithOverflow 60\)\.#?0\)( as Some\.0)?, self\.0\)'
+    want = r'TimeZone::from_utc_datetime\(FixedOffset::east(_opt)?\((\(self\.1\.offset MulWithOverflow 60\)\.#?0|\(self\.1\.offset Mul 60\))\)( as Some\.0)?, self\.0\)'
     for comp, rs in sorted(recvs.items()):
         bad = [r for r in rs if not re.fullmatch(want, r[1])]
         if bad:
